@@ -89,6 +89,33 @@ PARAMSETS = {
     '1_10': {'N': '1', 'CW': '10', 'WPB': '16', 'WPS': '4', 'NSUB': '4'},
     '1_11': {'N': '1', 'CW': '11', 'WPB': '32', 'WPS': '8', 'NSUB': '4'},
     '3_13': {'N': '3', 'CW': '13', 'WPB': '128', 'WPS': '16', 'NSUB': '8'},
+    # the four adaptive selection structures share one look-up (unit select.lookup)
+    'adapt': {'P_EXPECT': r'/fn log2_ones_per_sub32/', 'P_STRUCT': 'SelectAdapt', 'P_MODULE': 'select_adapt', 'P_FN': 'select_unchecked', 'P_HINTED': 'select_hinted',
+              'P_RK': 'rank_spec(bits, p)', 'P_BIT': 'bit_at(bits, p)', 'P_GEN': '', 'P_TARGS': '',
+              'P_L': 'self.log2_ones_per_inventory', 'P_M': 'self.log2_u64_per_subinventory', 'P_S16': 'self.log2_ones_per_sub16',
+              'P_MASKS': 'self.ones_per_inventory_mask == (1usize << self.log2_ones_per_inventory) - 1 && self.ones_per_sub16_mask == (1usize << self.log2_ones_per_sub16) - 1',
+              'P_HDR': r'/SelectUnchecked for SelectAdapt<B, I>/',
+              'P_HDR32': 'impl<B, I> SelectAdapt<B, I>', 'P_S32REQ': 'true', 'P_S32ARGS': 'span, log2_ones_per_sub16', 'P_S32S16': 'log2_ones_per_sub16'},
+    'zero_adapt': {'P_EXPECT': r'/fn log2_ones_per_sub32/', 'P_STRUCT': 'SelectZeroAdapt', 'P_MODULE': 'select_zero_adapt', 'P_FN': 'select_zero_unchecked', 'P_HINTED': 'select_zero_hinted',
+              'P_RK': 'p - rank_spec(bits, p)', 'P_BIT': '!bit_at(bits, p)', 'P_GEN': '', 'P_TARGS': '',
+              'P_L': 'self.log2_ones_per_inventory', 'P_M': 'self.log2_u64_per_subinventory', 'P_S16': 'self.log2_ones_per_sub16',
+              'P_MASKS': 'self.ones_per_inventory_mask == (1usize << self.log2_ones_per_inventory) - 1 && self.ones_per_sub16_mask == (1usize << self.log2_ones_per_sub16) - 1',
+              'P_HDR': r'/SelectZeroUnchecked for SelectZeroAdapt<B, I>/',
+              'P_HDR32': 'impl<B, I> SelectZeroAdapt<B, I>', 'P_S32REQ': 'true', 'P_S32ARGS': 'span, log2_ones_per_sub16', 'P_S32S16': 'log2_ones_per_sub16'},
+    'adapt_const': {'P_EXPECT': r'/const LOG2_ONES_PER_SUB16: usize =\s*LOG2_ONES_PER_INVENTORY\.saturating_sub\(LOG2_U64_PER_SUBINVENTORY\s*\+ 2\);\s*const ONES_PER_SUB16_MASK: usize =\s*\(1 << Self::LOG2_ONES_PER_SUB16\) - 1;\s*const ONES_PER_INVENTORY: usize = \(1 << LOG2_ONES_PER_INVENTORY\);\s*const ONES_PER_INVENTORY_MASK: usize =\s*\(1 << LOG2_ONES_PER_INVENTORY\) - 1;/', 'P_STRUCT': 'SelectAdaptConst', 'P_MODULE': 'select_adapt_const', 'P_FN': 'select_unchecked', 'P_HINTED': 'select_hinted',
+              'P_RK': 'rank_spec(bits, p)', 'P_BIT': 'bit_at(bits, p)',
+              'P_GEN': '<const LOG2_ONES_PER_INVENTORY: usize, const LOG2_U64_PER_SUBINVENTORY: usize>', 'P_TARGS': ', LOG2_ONES_PER_INVENTORY, LOG2_U64_PER_SUBINVENTORY',
+              'P_L': 'LOG2_ONES_PER_INVENTORY', 'P_M': 'LOG2_U64_PER_SUBINVENTORY', 'P_S16': 'sat_sub(LOG2_ONES_PER_INVENTORY, (LOG2_U64_PER_SUBINVENTORY + 2) as usize)',
+              'P_MASKS': 'true',
+              'P_HDR': r'/SelectUnchecked for SelectAdaptConst<B, I, LOG2_ONES_PER_INVENTORY, LOG2_U64_PER_SUBINVENTORY>/',
+              'P_HDR32': r'/^impl<B, I, const LOG2_ONES_PER_INVENTORY ?: usize, const LOG2_U64_PER_SUBINVENTORY ?: usize> SelectAdaptConst<B, I,/', 'P_S32REQ': 'LOG2_U64_PER_SUBINVENTORY < 60', 'P_S32ARGS': 'span', 'P_S32S16': 'sat_sub(LOG2_ONES_PER_INVENTORY, (LOG2_U64_PER_SUBINVENTORY + 2) as usize)'},
+    'zero_adapt_const': {'P_EXPECT': r'/const LOG2_ONES_PER_SUB16: usize =\s*LOG2_ZEROS_PER_INVENTORY\.saturating_sub\(LOG2_U64_PER_SUBINVENTORY\s*\+ 2\);\s*const ONES_PER_SUB16_MASK: usize =\s*\(1 << Self::LOG2_ONES_PER_SUB16\) - 1;\s*const ONES_PER_INVENTORY: usize = \(1 << LOG2_ZEROS_PER_INVENTORY\);\s*const ONES_PER_INVENTORY_MASK: usize =\s*\(1 << LOG2_ZEROS_PER_INVENTORY\) - 1;/', 'P_STRUCT': 'SelectZeroAdaptConst', 'P_MODULE': 'select_zero_adapt_const', 'P_FN': 'select_zero_unchecked', 'P_HINTED': 'select_zero_hinted',
+              'P_RK': 'p - rank_spec(bits, p)', 'P_BIT': '!bit_at(bits, p)',
+              'P_GEN': '<const LOG2_ZEROS_PER_INVENTORY: usize, const LOG2_U64_PER_SUBINVENTORY: usize>', 'P_TARGS': ', LOG2_ZEROS_PER_INVENTORY, LOG2_U64_PER_SUBINVENTORY',
+              'P_L': 'LOG2_ZEROS_PER_INVENTORY', 'P_M': 'LOG2_U64_PER_SUBINVENTORY', 'P_S16': 'sat_sub(LOG2_ZEROS_PER_INVENTORY, (LOG2_U64_PER_SUBINVENTORY + 2) as usize)',
+              'P_MASKS': 'true',
+              'P_HDR': r'/SelectZeroUnchecked for SelectZeroAdaptConst<B, I, LOG2_ZEROS_PER_INVENTORY, LOG2_U64_PER_SUBINVENTORY>/',
+              'P_HDR32': r'/^impl<B, I, const LOG2_ZEROS_PER_INVENTORY ?: usize, const LOG2_U64_PER_SUBINVENTORY ?: usize> SelectZeroAdaptConst<B, I,/', 'P_S32REQ': 'LOG2_U64_PER_SUBINVENTORY < 60', 'P_S32ARGS': 'span', 'P_S32S16': 'sat_sub(LOG2_ZEROS_PER_INVENTORY, (LOG2_U64_PER_SUBINVENTORY + 2) as usize)'},
 }
 
 
@@ -104,6 +131,7 @@ class Unit:
         self.slice_recv_ref = []
         self.bind_closure = []
         self.substs = []
+        self.expect_source = []   # `//@ expect_source /re/`: source text a declared substitution was read from; lost anchor if it changes
         self.elements = []    # ('text', Line) | ('fn', FnSpec) | ('item', dict)
         self.props = set()
         self.fired = {}
@@ -139,6 +167,8 @@ class Unit:
                         self.bind_closure.append(arg.strip())
                     elif word == 'subst':
                         self.substs.append(_parse_subst(arg, '%s:%d' % (rel, n)))
+                    elif word == 'expect_source':
+                        self.expect_source.append(arg.strip())
                     elif word == 'include':
                         self._parse(os.path.join(CONTRACTS, arg), top=False)
                     elif word == 'assume':
@@ -335,6 +365,10 @@ def assemble(unit, index, expanded_name='expanded.rs', probe=None, lenient=False
     out = Assembled()
     out.lost = []     # (fn, what) proof hints dropped in lenient mode
     fired = out.fired
+    for pat in unit.expect_source:
+        rx = pat[1:-1] if pat.startswith('/') and pat.endswith('/') else re.escape(pat)
+        if not re.search(rx, index.src, re.S):
+            raise ExtractError('source text a declared substitution was read from is gone (lost anchor): %s' % pat[:120])
     for kind, el in unit.elements:
         if kind == 'text':
             out.lines.append(el)
